@@ -8,6 +8,7 @@ well-formedness hypothesis is needed: the decider only ever answers `true` along
 -/
 namespace Heph
 namespace Ty
+namespace D2
 
 variable {U : Ty → Prop}
 
@@ -163,5 +164,6 @@ theorem isSubDTop_sound (hU : ClosedU U) {s t : Ty} (us : U s) (ut : U t)
     (h : isSubDTop s t = true) : SubT U s t :=
   isSubD_sound hU _ us ut h
 
+end D2
 end Ty
 end Heph
